@@ -394,7 +394,7 @@ func otherPrin(t *rapid.T, label string, avoid ...int) int {
 // PrincipalDeviations lists the deviation kinds of C01.
 var PrincipalDeviations = []string{"rewire-aud", "rewire-iss", "subject-other", "subject-undef", "last-not-root",
 	"foreign-root", "foreign-root-suffix", "subject-other-run", "root-in-audience", "swap", "duplicate", "truncate-root", "truncate-leaf", "missing", "loader-error",
-	"empty", "wrong-invoker", "inv-subject-other"}
+	"empty", "wrong-invoker", "inv-subject-other", "reverse", "rotate"}
 
 // ApplyPrincipalDeviation mutates c in place with one labelled deviation at a drawn position.
 func ApplyPrincipalDeviation(t *rapid.T, c *Case, kind string) {
@@ -480,6 +480,22 @@ func ApplyPrincipalDeviation(t *rapid.T, c *Case, kind string) {
 		j := rapid.IntRange(0, n-1).Draw(t, "devpos2")
 		c.Links[pos], c.Links[j] = c.Links[j], c.Links[pos]
 		label = fmt.Sprintf("%s@%d,%d/%d", kind, pos, j, n)
+	case "reverse":
+		// the whole proof list the other way round (root first, as older UCAN versions listed it)
+		if n < 2 {
+			return
+		}
+		for i, j := 0, n-1; i < j; i, j = i+1, j-1 {
+			c.Links[i], c.Links[j] = c.Links[j], c.Links[i]
+		}
+		label = fmt.Sprintf("%s/%d", kind, n)
+	case "rotate":
+		if n < 2 {
+			return
+		}
+		k := 1 + pos%(n-1)
+		c.Links = append(append([]Link{}, c.Links[k:]...), c.Links[:k]...)
+		label = fmt.Sprintf("%s@%d/%d", kind, k, n)
 	case "duplicate":
 		if n == 0 {
 			return
